@@ -654,13 +654,23 @@ class C08(common.Prop):
                 return {"what": d, "stage": "convert", "backend": kind, "D": D, "odd_conf": odd_conf, "got": common.small(out["conv"][i], 500)}
         for j, op in enumerate(case["ops"]):
             edge = op_edge(case, op)
-            if edge and not EDGE_ARGS_ARE_FAILURES:
+            # a negative index leaves the common domain only on TensorFlow (tf.gather rejects it); NumPy and Torch share
+            # Python's from-the-end convention and are still compared with the reference
+            tf_only_edge = False
+            if edge == "negative-index":
+                rr = self._ref_read(case)
+                if rr is not None:
+                    n_ax = rr["shape"][2] if op[0] == "get_points" else rr["shape"][0]
+                    tf_only_edge = all(-n_ax <= i < n_ax for i in op[1])     # out-of-range requests keep their own conventions
+            if edge and not tf_only_edge and not EDGE_ARGS_ARE_FAILURES:
                 continue
             r = self._ref_op(case, op)
             if r is None:
                 continue
             for i, kind in enumerate(BACKENDS):
                 if skip_tf and kind == "tensorflow":
+                    continue
+                if tf_only_edge and kind == "tensorflow" and not EDGE_ARGS_ARE_FAILURES:
                     continue
                 got = pg.strip_err(out["ops"][j][i])
                 if op[0] == "flatten" and kind == "tensorflow":
